@@ -1183,6 +1183,9 @@ func (v *V) atStmts(e *Env, call *ast.CallExpr, after bool, bind map[string]Val,
 		se := v.specEnv(e.st, v.entry, v.top, scope, spos)
 		if sc := v.top.info.Scopes[v.enclosingBlock(call)]; sc != nil {
 			se.scope, se.pos = sc, call.Pos()
+		} else if call.Pos() > v.fi.body.Lbrace && call.Pos() < v.fi.body.Rbrace {
+			// directly in the function body: its scope, as of the call's position
+			se.pos = call.Pos()
 		}
 		for k, val := range bind {
 			se.bound[k] = val
